@@ -559,7 +559,35 @@ PROOF = dict(
                  "only 'trusted root together with a wrong value' is a violation; rejecting or another root is fine"],
 )
 
-FAMILIES = {"C01": MPT, "C02": MPT, "C14": MPT, "C06": SC, "C07": SC, "C08": C08, "C03": ROUNDS, "C04": ROUNDS, "C05": ROUNDS, "C17": SYNC, "C16": C16, "C09": WMPT, "C11": WMPT, "C13": WMPT, "C10": PROOF}
+# ----------------------------------------------------------------------------- family: wpath (C12)
+
+def _wpath_ops(events):
+    r = [e for e in events if e["op"] == "reset"][0]
+    x = [e for e in events if e["op"] == "export"][0]
+    ops = [dict(op=e["op"], k=e["k"], v=e.get("v", ""), level=0) for e in events if e["op"] in ("update", "delete")]
+    return dict(init=[[i[0], i[1]] for i in r["init"]], level=r["level"], req=x["req"], big=False, ops=ops)
+
+
+WPATH = dict(
+    name="wpath", component="wpath", trace_module="WMPTPathTrace", trace_cfg="WMPTPathTrace.cfg",
+    design={"quick": [("WMPT_MC", "WMPT_MC.cfg")], "thorough": [("WMPT_MC", "WMPT_MC.cfg")]},
+    gen={"quick": [dict(module="WMPTPath", cfg="WMPTPath.cfg", workers=8)],
+         "thorough": [dict(module="WMPTPath", cfg="WMPTPath_big.cfg", workers=12, timeout=3000)]},
+    exec_args=lambda tier, seed: (["-n", 1500] if tier == "quick" else ["-n", 40000]),
+    flags={"C12": {"export", "importroot", "importweight", "mirrorres", "mirrorroot", "mirrorweight", "fullres", "fullweight",
+                   "rootfn", "finalroot", "unknown-op"}},
+    distinct=lambda s: s.get("distinct_signatures", 0),
+    rule="scenarios = (a) every (source content over 3 keys, collapse level in-memory/0/1, requested set incl. an absent key and an "
+         "optional block of 11 absent filler keys (> 10 requested keys), <=2 mirrored updates/deletes of requested keys) emitted by "
+         "TLC from WMPTPath.tla (19200 quick); (b) seeded random scenarios over ten 32-byte keys (root a branch, a shared-prefix node, "
+         "a single entry or empty), 0..14 requested keys, collapse levels -1/0/1/2/3/64, up to 7 mirrored operations; "
+         "distinct_nontrivial = distinct (content size, level, request size, operation kinds) signatures",
+    summary_keys=["import_errors", "panics", "go_histories"],
+    ops_of=_wpath_ops,
+    assumptions=["only updates/deletes of requested keys are mirrored", "independent root computation by harness/bridge/wmpt.go"],
+)
+
+FAMILIES = {"C01": MPT, "C02": MPT, "C14": MPT, "C06": SC, "C07": SC, "C08": C08, "C03": ROUNDS, "C04": ROUNDS, "C05": ROUNDS, "C17": SYNC, "C16": C16, "C09": WMPT, "C11": WMPT, "C13": WMPT, "C10": PROOF, "C12": WPATH}
 PROPS = dict(FAMILIES)
 
 
